@@ -3,6 +3,7 @@ import PPProofs.Lemmas.DiagramRoot
 import PPProofs.Lemmas.DiagramRoot0
 import PPProofs.Lemmas.DiagramFilled
 import PPProofs.Lemmas.DiagramContent
+import PPProofs.Lemmas.DiagramBounds
 import PPProofs.Props.C20
 /-!
 # C20 — the clauses links_resolve / root_first / no_empty_placeholder under decidable hypotheses
@@ -22,6 +23,8 @@ registered shape (each hypothesis is shown to fail on the corresponding witness)
                                        of the final heap and all diagram contents are filled with references,
                                        no returned tree contains `""`; NOT proved: `resolve` never yields
                                        `rawNone` (its fuel `|heap|+1` suffices, no dangling reference)
+* `no_dangling_reference`              FULL strength (no hypothesis): every reference in the final heap and every
+                                       kept diagram content points into the heap
 Invariants (Lemmas/DiagramLinks, DiagramRoot, DiagramRoot0, DiagramFilled, DiagramContent): `conv_step`
 (every NonTerminal carries the custom name of an extracted or pending element; a returning call leaves
 no new pending element), `conv_RInv` / `conv_RInv0_on` (the root keeps index 1, all others ≥ 2, diagram
@@ -423,5 +426,34 @@ example : drawsAll gNamed opts0 = true ∧ (convertRoot gNamed opts0 6 0).isSome
 example : drawsAll gEmptyOpt opts0 = false ∧
     ∃ ds, toRailroad gEmptyOpt opts0 10 0 = some ds ∧ noEmptyPlaceholder ds = false :=
   ⟨by decide +kernel, empty_placeholder_witness⟩
+
+/-! ## referential integrity of the heap -/
+
+/-- **no_dangling_reference** (full strength: ALL grammars, options, roots, fuels): when the conversion
+    returns, every reference stored in an EditablePartial and the content of every kept diagram entry
+    points into the heap of partials - `resolve` never meets a dangling reference.  (With
+    `no_empty_placeholder_tree_partial` this leaves exactly one reason for a `rawNone` in a returned
+    tree of a `drawsAll` grammar: the fuel `|heap|+1` of `resolve` running out, i.e. a reference
+    chain longer than the heap; that the heap is acyclic is not proved.) -/
+theorem no_dangling_reference (g : Grammar) (o : Opts) (fuel root : Nat) (s : St)
+    (h : convertRoot g o fuel root = some s) :
+    (∀ nd ∈ s.heap, nd.kw.inB s.heap.length = true) ∧ ∀ e ∈ selected s, e.content.inB s.heap.length = true := by
+  have hB := convertRoot_B g o fuel root s h
+  refine ⟨hB.hp, ?_⟩
+  intro e he
+  have hmem : e ∈ s.diagrams.map (·.2) := by
+    unfold selected at he
+    simp only at he
+    split at he
+    · exact dedupe_sub _ _ _ he
+    · exact he
+  obtain ⟨p, hp, rfl⟩ := List.mem_map.mp hmem
+  exact hB.dg p hp
+
+/-- the statement is not vacuous: the conversion of the named recursive grammar returns, with
+    references in its heap -/
+example : ∃ s, convertRoot gNamed opts0 6 0 = some s ∧ 5 ≤ s.heap.length := by
+  refine ⟨_, rfl, ?_⟩
+  decide +kernel
 
 end PP.Diagram
